@@ -3,6 +3,7 @@
 from ..r_iso import rule_admission_guards, rule_filter_and_operators
 
 from ..r_domains import rule_domains
+from ..r_escape import rule_yield_then_mutate, rule_borrowed_pool
 
 LEVEL = 'other'
 
@@ -12,3 +13,6 @@ def run(ck, repo):
     rule_admission_guards(ck, repo, 'C07.D1-admission-guards')
     rule_domains(ck, repo, 'C07.D1-index-domains', only=[':_get_mapping'])
     rule_filter_and_operators(ck, repo, 'C07.D2-filter-operators')
+    in_iso = lambda f: f.module.name == 'chython.algorithms.isomorphism'
+    rule_yield_then_mutate(ck, repo, 'C07.D3-yielded-mappings-immutable', in_iso, floor=5)
+    rule_borrowed_pool(ck, repo, 'C07.D3-pooled-mappings-copied', in_iso, floor=2)
